@@ -91,18 +91,10 @@ func run(c *harness.Case) {
 			"distortions": sc.H.Distortions, "final": st.Summary()})
 	}
 
-	if d := shadowdp.Diff(hist.Shadow.State, canon.Shadow.State); len(d) > 0 {
-		w := sc.Witness()
-		w["diff (A=history, B=fresh canonical)"] = capLines(d, 20)
-		c.Violationf("history-vs-fresh-state-differs", w, "state after the distorted history differs from a fresh graph fed the final state: %s", d[0])
-	}
-	if d := shadowdp.Diff(canon.Shadow.State, permd.Shadow.State); len(d) > 0 {
-		w := sc.Witness()
-		w["permutation"] = perm
-		w["in_sync_first"] = inSyncFirst
-		w["diff (A=fresh canonical, B=fresh permuted)"] = capLines(d, 20)
-		c.Violationf("fresh-order-dependence", w, "two fresh graphs fed the same state in different key orders disagree: %s", d[0])
-	}
+	compare(c, sc, "history-dependence", "A=state after the distorted history, B=fresh graph fed the final state in canonical order",
+		hist.Shadow.State, canon.Shadow.State, nil)
+	compare(c, sc, "fresh-order-dependence", "A=fresh graph, canonical key order, B=fresh graph, permuted key order",
+		canon.Shadow.State, permd.Shadow.State, map[string]any{"permutation": perm, "in_sync_first": inSyncFirst})
 
 	if c.Index%asyncEvery == 0 {
 		res := calcgen.RunAsync(sc.U, sc.Graph, sc.H.Ops, 60*time.Second, nil)
@@ -113,11 +105,32 @@ func run(c *harness.Case) {
 		c.Count("async_runs", 1)
 		c.Count("async_messages", int64(len(res.Msgs)))
 		ash := shadowdp.Fold(res.Msgs)
-		if d := shadowdp.Diff(ash.State, canon.Shadow.State); len(d) > 0 {
-			w := sc.Witness()
-			w["diff (A=async history, B=fresh canonical)"] = capLines(d, 20)
-			c.Violationf("async-history-vs-fresh-state-differs", w, "state after the history through AsyncCalcGraph differs from a fresh graph fed the final state: %s", d[0])
+		compare(c, sc, "async-history-dependence", "A=state after the history through AsyncCalcGraph, B=fresh graph fed the final state",
+			ash.State, canon.Shadow.State, nil)
+	}
+}
+
+// compare reports one violation per distinct kind of difference (class, kind, differing fields).
+func compare(c *harness.Case, sc *calcgen.Scenario, prefix, legend string, a, b *shadowdp.State, extra map[string]any) {
+	entries := shadowdp.DiffEntries(a, b)
+	seen := map[string]bool{}
+	for _, e := range entries {
+		key := prefix + ":" + e.Key()
+		if seen[key] {
+			continue
 		}
+		seen[key] = true
+		w := sc.Witness()
+		for k, v := range extra {
+			w[k] = v
+		}
+		var all []string
+		for _, x := range entries {
+			all = append(all, x.Text)
+		}
+		w["legend"] = legend
+		w["diff"] = capLines(all, 20)
+		c.Violationf(key, w, "%s (%s): %s", prefix, legend, e.Text)
 	}
 }
 
